@@ -40,6 +40,7 @@ type srvConn struct {
 	clientClosed bool   // client closed its end: EOF after `in` is drained
 	closed       bool   // server called Close()
 	wfail        bool   // Write fails from now on
+	closeErr     bool   // Close() reports an error (it still closes: tls.Conn.Close with a peer that is gone)
 	wstall       bool   // Write blocks until the connection is closed (or made to fail): the client does not read
 	wBlocked     bool   // the write loop is parked inside such a Write
 
@@ -173,7 +174,11 @@ func (c *srvConn) Close() error {
 	c.rBlocked = false
 	c.wBlocked = false
 	c.cond.Broadcast()
+	ce := c.closeErr
 	c.mu.Unlock()
+	if ce {
+		return errors.New("c05: failed to send closeNotify alert (but connection was closed anyway)")
+	}
 	return nil
 }
 
